@@ -650,3 +650,70 @@ def canonicalise_filtered_loops(tree: ast.AST) -> int:
     if k:
         ast.fix_missing_locations(tree)
     return k
+
+
+# ----------------------------------------------------------------------------------------------------------- conditional assignments
+def canonicalise_conditional_assignments(tree: ast.AST) -> int:
+    """`x = a if c else b` is loaded as `if c: x = a else: x = b` (also for `return`, augmented and annotated assignments; nested conditional
+    expressions become nested statements).  The statement form is the canonical one: a rule that enumerates paths, guards or reaching
+    definitions then sees the same program whichever way the source spells the choice."""
+    k = 0
+
+    def split(s: ast.stmt) -> Optional[ast.stmt]:
+        nonlocal k
+        v = getattr(s, "value", None)
+        if not isinstance(v, ast.IfExp):
+            return None
+        if isinstance(s, ast.Assign):
+            if len(s.targets) != 1 or not _side_effect_free_target(s.targets[0]):
+                return None
+            mk = lambda val: ast.copy_location(ast.Assign(targets=[copy.deepcopy(s.targets[0])], value=val, lineno=s.lineno), s)
+        elif isinstance(s, ast.AnnAssign):
+            if not isinstance(s.target, ast.Name):
+                return None
+            mk = lambda val: ast.copy_location(ast.Assign(targets=[ast.Name(id=s.target.id, ctx=ast.Store())], value=val, lineno=s.lineno), s)
+        elif isinstance(s, ast.AugAssign):
+            if not _side_effect_free_target(s.target):
+                return None
+            mk = lambda val: ast.copy_location(ast.AugAssign(target=copy.deepcopy(s.target), op=s.op, value=val), s)
+        elif isinstance(s, ast.Return):
+            mk = lambda val: ast.copy_location(ast.Return(value=val), s)
+        else:
+            return None
+        k += 1
+        a, b = mk(v.body), mk(v.orelse)
+        new = ast.copy_location(ast.If(test=v.test, body=[split(a) or a], orelse=[split(b) or b]), s)
+        return new
+
+    def walk(stmts: List[ast.stmt]) -> List[ast.stmt]:
+        out = []
+        for s in stmts:
+            for field in ("body", "orelse", "finalbody"):
+                sub = getattr(s, field, None)
+                if isinstance(sub, list) and sub and isinstance(sub[0], ast.stmt):
+                    setattr(s, field, walk(sub))
+            if isinstance(s, ast.Try):
+                for h in s.handlers:
+                    h.body = walk(h.body)
+            if hasattr(ast, "Match") and isinstance(s, getattr(ast, "Match")):
+                for c in s.cases:
+                    c.body = walk(c.body)
+            out.append(split(s) or s)
+        return out
+
+    for n in ast.walk(tree):
+        if isinstance(n, (ast.Module,)):
+            n.body = walk(n.body)
+    if k:
+        ast.fix_missing_locations(tree)
+    return k
+
+
+def _side_effect_free_target(t: ast.AST) -> bool:
+    if isinstance(t, ast.Name):
+        return True
+    if isinstance(t, ast.Attribute):
+        return _simple_arg(t.value)
+    if isinstance(t, ast.Subscript):
+        return _simple_arg(t.value) and (_simple_arg(t.slice) or isinstance(t.slice, ast.Constant))
+    return False
